@@ -181,7 +181,9 @@ CLAIMED = {
              "file or a symlink of that name, listings spanning several 32 KiB buffer chunks and single stats larger than a chunk; TLC checks "
              "that the decoded listing equals the STAT log minus the listing name, record by record and in order, that the destination "
              "(listing aside) converges to the projection 'selected entries plus needed ancestors', and that content was requested only for, "
-             "and for all needed, selected regular files.",
+             "and for all needed, selected regular files, and that no entry is applied twice. spec/MetaStackMC.tla transcribes the replay logic "
+             "(STAT index, ancestor stack, forwarded sequence) and TLC proves 'forwarded = projection' and 'ids = STAT positions' for all "
+             "parent-closed trees over a six-path universe and all selectors; two pinned-tree variants must be rejected.",
         design_ref="DESIGN.md section 6 C19",
         note=_SYNC_NOTE + " The listing is decoded by the harness with the vtproto decoder and compared via a canonical stat hash.",
         technique="TLA+ property layer (Projection / MetaClauses in SyncTrace, SyncOutcome) + TLC trace validation of real metadata-only transfers"),
